@@ -7,7 +7,9 @@
   Identity (room versions 3 and later = event ID formats 2 and 3):
   * `referenceID_ignores_unsigned` / `eventID_ignores_unsigned`      edits of `unsigned` do not change the ID
   * `referenceID_ignores_signatures` / `eventID_ignores_signatures`  edits of `signatures` / adding a signature do not
-  * `eventID_redact_invariant`                                        `Redact()` does not
+  * `eventID_redact_invariant`                                        `Redact()` does not (events whose JSON has no `event_id`
+                                                                      member; `eventID_redact_invariant_received`: every
+                                                                      event received as untrusted input, no proviso)
   * `eventID_injective`                                               under collision-free `H`: equal IDs ⇒ equal
                                                                       redacted, signature- and unsigned-stripped events
   * `eventID_alphabet`                                                `$` + 43 characters of the prescribed base64 alphabet
@@ -33,10 +35,9 @@ open V V.Json V.GoJson V.Redact V.EventParse V.RedactProofs V.EventProofs V.Buil
 
 /-! ## Table facts -/
 
-/-- no keep struct has a field that `unsigned` (or another key stripped on receipt) could be read into;
-    `signatures` is an omitempty raw field -/
+/-- no keep struct lists `unsigned` (or another key stripped on receipt); `signatures` is an omitempty raw field -/
 def tableOk (a : Algo) : Bool :=
-  unselected a b!"unsigned" && unselected a b!"age_ts" && unselected a b!"outlier" && unselected a b!"destinations" &&
+  unlisted a b!"unsigned" && unlisted a b!"age_ts" && unlisted a b!"outlier" && unlisted a b!"destinations" &&
   a.fields.any (fun f => f.name == b!"signatures" && f.kind == .raw && f.omitempty) &&
   a.fields.all (fun f => !(f.kind == .raw) || f.omitempty)
 
@@ -60,12 +61,24 @@ theorem algoOf_tableOk {ver : Bytes} {a : Algo} (h : algoOf ver = some a) : tabl
 /-! ## `unsigned` -/
 
 theorem redactJSON_obj_eq {ver : Bytes} {kvs kvs' : EventParse.Obj}
-    (h : ∀ a, algoOf ver = some a → redactObj a kvs' = redactObj a kvs) :
+    (h : ∀ a, algoOf ver = some a → redactWith a (.obj kvs') = redactWith a (.obj kvs)) :
     redactJSON ver (.obj kvs') = redactJSON ver (.obj kvs) := by
   unfold redactJSON
   cases ha : algoOf ver with
   | none => rfl
-  | some a => simp only [redactWith]; exact h a ha
+  | some a => exact h a ha
+
+/-- the four keys a receiver strips are listed by no keep struct: the redaction does not see them -/
+theorem redactJSON_strip4 (ver : Bytes) (kvs : EventParse.Obj) :
+    redactJSON ver (.obj (deleteKeys strip4 kvs)) = redactJSON ver (.obj kvs) := by
+  apply redactJSON_obj_eq
+  intro a ha
+  have hT := algoOf_tableOk ha
+  simp only [tableOk, Bool.and_eq_true] at hT
+  obtain ⟨⟨⟨⟨⟨hu1, hu2⟩, hu3⟩, hu4⟩, _⟩, _⟩ := hT
+  simp only [strip4, deleteKeys, List.foldl_cons, List.foldl_nil]
+  rw [redactWith_deleteFirst a _ _ hu1, redactWith_deleteFirst a _ _ hu2, redactWith_deleteFirst a _ _ hu4,
+    redactWith_deleteFirst a _ _ hu3]
 
 /-- The redaction — hence the reference hash, the event ID and the signing payload — of an event
     does not depend on its `unsigned` member: setting, replacing or removing it changes nothing. -/
@@ -75,15 +88,15 @@ theorem referenceID_ignores_unsigned (H : Bytes → Bytes) (row : VGen.VersionRo
     referenceID H row ver (.obj (setFirst b!"unsigned" u kvs)) = referenceID H row ver (.obj kvs) ∧
     referenceID H row ver (.obj (deleteFirst b!"unsigned" kvs)) = referenceID H row ver (.obj kvs) ∧
     signingPayload ver (.obj (setFirst b!"unsigned" u kvs)) = signingPayload ver (.obj kvs) := by
-  have hu : ∀ a, algoOf ver = some a → unselected a b!"unsigned" = true := by
+  have hu : ∀ a, algoOf ver = some a → unlisted a b!"unsigned" = true := by
     intro a ha
     have := algoOf_tableOk ha
     simp only [tableOk, Bool.and_eq_true] at this
     exact this.1.1.1.1.1
   have h1 : redactJSON ver (.obj (setFirst b!"unsigned" u kvs)) = redactJSON ver (.obj kvs) :=
-    redactJSON_obj_eq (fun a ha => redactObj_setFirst a _ u kvs (hu a ha))
+    redactJSON_obj_eq (fun a ha => redactWith_setFirst a _ u kvs (hu a ha))
   have h2 : redactJSON ver (.obj (deleteFirst b!"unsigned" kvs)) = redactJSON ver (.obj kvs) :=
-    redactJSON_obj_eq (fun a ha => redactObj_deleteFirst a _ kvs (hu a ha))
+    redactJSON_obj_eq (fun a ha => redactWith_deleteFirst a _ kvs (hu a ha))
   refine ⟨h1, h2, ?_, ?_, ?_⟩
   · simp only [referenceID, h1]
   · simp only [referenceID, h2]
@@ -137,17 +150,6 @@ theorem eventID_ignores_unsigned (H : Bytes → Bytes) {e e' : PDU} {u : JVal} (
 
 /-! ## `signatures` -/
 
-theorem sel_other_of_signatures {a : Algo} (hd : foldDistinct a.fields = true) {g : Field} (hg : g ∈ a.fields)
-    (hgn : g.name = b!"signatures") {f : Field} (hf : f ∈ a.fields) (hne : f ≠ g) (s : JVal) (kvs : EventParse.Obj) :
-    sel f.name (setFirst b!"signatures" s kvs) = sel f.name kvs := by
-  apply sel_setFirst_other
-  cases hm : matchesField b!"signatures" f.name
-  · rfl
-  · exfalso
-    have := matchesField_fold hm
-    rw [← hgn] at this
-    exact hne (foldDistinct_inj hd hg hf this).symm
-
 theorem stripSigs_flatMap (E E' : Field → EventParse.Obj) (fs : List Field) (g : Field)
     (hE : ∀ f ∈ fs, f ≠ g → E' f = E f)
     (hg : ∀ kv ∈ E g, kv.1 = b!"signatures") (hg' : ∀ kv ∈ E' g, kv.1 = b!"signatures") :
@@ -165,10 +167,12 @@ theorem stripSigs_flatMap (E E' : Field → EventParse.Obj) (fs : List Field) (g
       rw [filter_eq_nil_of _ _ (fun kv hkv => by simp [hg' kv hkv]), filter_eq_nil_of _ _ (fun kv hkv => by simp [hg kv hkv])]
     · rw [hE f List.mem_cons_self hfg]
 
-/-- Replacing the `signatures` member changes the redaction only in its `signatures` member. -/
-theorem redactObj_signatures {a : Algo} (hT : tablesOk a = true) (hS : tableOk a = true) (s : JVal) {kvs : EventParse.Obj} {v : JVal}
+/-- Two objects in which every field of the keep struct other than `signatures` selects the same members have
+    redactions that differ at most in their `signatures` member (and one succeeds iff the other does). -/
+theorem redactObj_signatures {a : Algo} (hT : tablesOk a = true) (hS : tableOk a = true) {kvs kvs' : EventParse.Obj} {v : JVal}
+    (hselo : ∀ f ∈ a.fields, f.name ≠ b!"signatures" → sel f.name kvs' = sel f.name kvs)
     (h : redactObj a kvs = .ok v) :
-    ∃ r r', v = .obj r ∧ redactObj a (setFirst b!"signatures" s kvs) = .ok (.obj r') ∧ stripSigs r' = stripSigs r := by
+    ∃ r r', v = .obj r ∧ redactObj a kvs' = .ok (.obj r') ∧ stripSigs r' = stripSigs r := by
   obtain ⟨tf, cf, F, hv⟩ := redactObj_ok h
   obtain ⟨hdist, _, _, _⟩ := tablesOk_parts hT
   simp only [tableOk, Bool.and_eq_true] at hS
@@ -178,15 +182,15 @@ theorem redactObj_signatures {a : Algo} (hT : tablesOk a = true) (hS : tableOk a
   obtain ⟨⟨hgn, hgk⟩, hgo⟩ := hgp
   obtain ⟨htfm, htfk⟩ := typeField_mem F.htf
   obtain ⟨hcfm, hcfk⟩ := contentField_mem F.hcf
+  have hne_of : ∀ f ∈ a.fields, f ≠ g → f.name ≠ b!"signatures" := by
+    intro f hf hne he
+    exact hne (foldDistinct_inj hdist hf hg (by rw [he, hgn]))
   have htg : tf ≠ g := by intro he; rw [he, hgk] at htfk; cases htfk
   have hcg : cf ≠ g := by intro he; rw [he, hgk] at hcfk; cases hcfk
-  let kvs' := setFirst b!"signatures" s kvs
-  have hselo : ∀ f ∈ a.fields, f ≠ g → sel f.name kvs' = sel f.name kvs :=
-    fun f hf hne => sel_other_of_signatures hdist hg hgn hf hne s kvs
   have h1 : decType tf.name kvs' = decType tf.name kvs := by
-    rw [decType_sel, decType_sel, hselo tf htfm htg]
+    rw [decType_sel, decType_sel, hselo tf htfm (hne_of tf htfm htg)]
   have h2 : decContent cf.name kvs' = decContent cf.name kvs := by
-    rw [decContent_sel, decContent_sel, hselo cf hcfm hcg]
+    rw [decContent_sel, decContent_sel, hselo cf hcfm (hne_of cf hcfm hcg)]
   have F' : RedactFacts a kvs' tf cf := by
     refine ⟨F.htf, F.hcf, F.noUnknown, by rw [h1]; exact F.terr, by rw [h2]; exact F.cerr, by rw [h2]; exact F.ccls,
       by rw [h1]; exact F.tutf, by rw [h1, h2]; exact F.cmod, ?_⟩
@@ -203,9 +207,20 @@ theorem redactObj_signatures {a : Algo} (hT : tablesOk a = true) (hS : tableOk a
   apply stripSigs_flatMap _ _ a.fields g
   · intro f hf hne
     unfold emitField
-    rw [lookupField_sel, lookupField_sel, hselo f hf hne]
+    rw [lookupField_sel, lookupField_sel, hselo f hf (hne_of f hf hne)]
   · intro kv hkv; rw [emitField_name hkv, hgn]
   · intro kv hkv; rw [emitField_name hkv, hgn]
+
+/-- Replacing the `signatures` member changes the redaction only in its `signatures` member. -/
+theorem redactWith_signatures {a : Algo} (hT : tablesOk a = true) (hS : tableOk a = true) (s : JVal) {kvs : EventParse.Obj} {v : JVal}
+    (h : redactWith a (.obj kvs) = .ok v) :
+    ∃ r r', v = .obj r ∧ redactWith a (.obj (setFirst b!"signatures" s kvs)) = .ok (.obj r') ∧ stripSigs r' = stripSigs r := by
+  obtain ⟨hdist, _, _, _⟩ := tablesOk_parts hT
+  have hnd := names_nodup hdist
+  apply redactObj_signatures hT hS (kvs := exactFields a.fields kvs) ?_ h
+  intro f hf hne
+  rw [sel_wf (exactFields_wf hdist _) hf, sel_wf (exactFields_wf hdist _) hf, lookupExact_exactFields hnd _ hf,
+    lookupExact_exactFields hnd _ hf, lookupExact_setFirst_other s kvs (fun e => hne e.symm)]
 
 /-- The reference hash input (= the signing payload) and the event ID do not depend on the
     `signatures` member. -/
@@ -218,12 +233,12 @@ theorem referenceID_ignores_signatures (H : Bytes → Bytes) (row : VGen.Version
   | error x => rw [hr] at h; cases h
   | ok v =>
     obtain ⟨a, kvs0, rk, ha, hro, hv⟩ := C04.redactJSON_obj hr
-    have hro' : redactObj a kvs = .ok v := by
-      simpa [redactJSON, ha, redactWith] using hr
+    have hro' : redactWith a (.obj kvs) = .ok v := by
+      simpa [redactJSON, ha] using hr
     obtain ⟨hT, _⟩ := C05.algoOf_ok ha
-    obtain ⟨r, r', hvr, hr', hstrip⟩ := redactObj_signatures hT (algoOf_tableOk ha) s hro'
+    obtain ⟨r, r', hvr, hr', hstrip⟩ := redactWith_signatures hT (algoOf_tableOk ha) s hro'
     have hr2 : redactJSON ver (.obj (setFirst b!"signatures" s kvs)) = .ok (.obj r') := by
-      simpa [redactJSON, ha, redactWith] using hr'
+      simpa [redactJSON, ha] using hr'
     subst hvr
     rw [hr] at h
     constructor
@@ -275,10 +290,19 @@ theorem eventID_ignores_signatures (H : Bytes → Bytes) {e e' : PDU} {name kid 
 
 /-! ## Redaction -/
 
-/-- **`Redact()` keeps the event ID** (event formats with hashed IDs; the redacted JSON has no
-    `event_id` member, as for every event received through `NewEventFromUntrustedJSON`). -/
+/-- **`Redact()` keeps the event ID** (event formats with hashed IDs), for every event whose JSON has no
+    member with the key `event_id` (`hnoid` — a condition on the event itself, not on its redaction: redaction
+    matches keys exactly, so neither a case variant such as `Event_id` nor anything else can put an `event_id`
+    member into the redacted JSON).  It holds of every event received through `NewEventFromUntrustedJSON`
+    (`eventID_redact_invariant_received`: the key is stripped on receipt) and of every `EventBuilder.Build`
+    output of these formats (`Build` writes no `event_id`).
+
+    What remains outside: TRUSTED JSON (`NewEventFromTrustedJSON`, `…WithEventID`, the headered form) that carries
+    an `event_id` member in a hashed-ID format.  The constructors take the stored ID from it (or from the
+    argument), `Redact()` re-reads the member from the redacted JSON: the two can differ (a case variant read by
+    the struct decoding, an `…WithEventID` argument different from the member). -/
 theorem eventID_redact_invariant (H : Bytes → Bytes) {e e' : PDU} (h : redact e = .ok e') (hv : e.fmt ≠ .v1)
-    (hnoid : ∀ rk, redactJSON e.ver (.obj e.obj) = .ok (.obj rk) → members rk b!"event_id" = []) :
+    (hnoid : lookupExact e.obj b!"event_id" = none) :
     eventID H e' = eventID H e := by
   unfold redact at h
   split at h
@@ -296,9 +320,15 @@ theorem eventID_redact_invariant (H : Bytes → Bytes) {e e' : PDU} (h : redact 
       | ok r =>
         rw [hr] at h
         dsimp only at h
-        obtain ⟨_, _, rk, _, _, hrk⟩ := C04.redactJSON_obj hr
+        obtain ⟨a', _, rk, ha', hro, hrk⟩ := C04.redactJSON_obj hr
         subst hrk
-        have hm := hnoid rk hr
+        have hm : members rk b!"event_id" = [] := by
+          obtain ⟨_, a, ha, hev⟩ := C04.row_facts hrow
+          have haa : a' = a := by rw [ha] at ha'; exact (Option.some.inj ha').symm
+          subst haa
+          obtain ⟨hT, _⟩ := C05.algoOf_ok ha
+          have := no_event_id_member hT hev hro
+          rwa [deleteFirst_absent _ _ (C05.redact_drops_unlisted hr (by decide) (by decide) hnoid)] at this
         have hv' : (e.fmt == Fmt.v1) = false := by simp [hv]
         have hraw : (decodeFields Fmt.v2 rk).f.eventIDRaw = [] := by
           simp only [decodeFields, hm, seqString, List.foldl_nil]
@@ -319,6 +349,13 @@ theorem eventID_redact_invariant (H : Bytes → Bytes) {e e' : PDU} (h : redact 
               · cases h
                 unfold eventID
                 simp only [hv', Bool.false_or, hraw, List.isEmpty_nil, if_true, hrow, href]
+
+/-- `Redact()` keeps the ID of every event received through `NewEventFromUntrustedJSON` (formats with hashed
+    IDs) — no proviso: the receiver stripped `event_id`, and redaction cannot bring one back. -/
+theorem eventID_redact_invariant_received (H : Bytes → Bytes) {ver text : Bytes} {e e' : PDU}
+    (hp : parseUntrusted H ver text = .ok e) (h : redact e = .ok e') (hv : e.fmt ≠ .v1) :
+    eventID H e' = eventID H e :=
+  eventID_redact_invariant H h hv (C04.accepted_no_event_id hp hv)
 
 /-! ## Injectivity and alphabet -/
 
@@ -591,51 +628,32 @@ theorem reparse_same_partial {H : Bytes → Bytes} {ver text : Bytes} {e e' : PD
     -- (absent) event_id do not enter the redaction
     rw [ho, hkv'] at hidu
     have hred : redactJSON ver (.obj (deleteKeys (stripKeys fmt') kvs0)) = redactJSON ver (.obj kvs0) := by
-      apply redactJSON_obj_eq
-      intro a ha
-      apply redactObj_congr
-      intro f hfm
-      have hT := algoOf_tableOk ha
-      simp only [tableOk, Bool.and_eq_true] at hT
-      obtain ⟨⟨⟨⟨⟨hu1, hu2⟩, hu3⟩, hu4⟩, _⟩, _⟩ := hT
-      have hun : ∀ k ∈ [b!"outlier", b!"destinations", b!"age_ts", b!"unsigned"], matchesField k f.name = false := by
-        intro k hk
-        simp only [List.mem_cons, List.mem_nil_iff, or_false] at hk
-        rcases hk with rfl | rfl | rfl | rfl
-        · simpa using List.all_eq_true.mp hu3 f hfm
-        · simpa using List.all_eq_true.mp hu4 f hfm
-        · simpa using List.all_eq_true.mp hu2 f hfm
-        · simpa using List.all_eq_true.mp hu1 f hfm
       -- delete the four local keys, then (later formats) event_id, which is absent
-      have h4 : sel f.name (deleteKeys [b!"outlier", b!"destinations", b!"age_ts", b!"unsigned"] kvs0) = sel f.name kvs0 := by
-        simp only [deleteKeys, List.foldl_cons, List.foldl_nil]
-        rw [sel_deleteFirst_other _ _ _ (hun _ (by simp)), sel_deleteFirst_other _ _ _ (hun _ (by simp)),
-          sel_deleteFirst_other _ _ _ (hun _ (by simp)), sel_deleteFirst_other _ _ _ (hun _ (by simp))]
       have hfmt2 : stripKeys fmt' = [b!"outlier", b!"destinations", b!"age_ts", b!"unsigned", b!"event_id"] := by
         unfold stripKeys
         have : (fmt' == Fmt.v1) = false := by simp [hne]
         simp [this]
       rw [hfmt2]
       have hsplit : deleteKeys [b!"outlier", b!"destinations", b!"age_ts", b!"unsigned", b!"event_id"] kvs0 =
-          deleteFirst b!"event_id" (deleteKeys [b!"outlier", b!"destinations", b!"age_ts", b!"unsigned"] kvs0) := by
-        simp [deleteKeys]
+          deleteFirst b!"event_id" (deleteKeys strip4 kvs0) := by
+        simp [deleteKeys, strip4]
       rw [hsplit]
       -- no member matches event_id, so deleting it is the identity
-      have hnone : lookupExact (deleteKeys [b!"outlier", b!"destinations", b!"age_ts", b!"unsigned"] kvs0) b!"event_id" = none := by
+      have hnone : lookupExact (deleteKeys strip4 kvs0) b!"event_id" = none := by
         rw [lookupExact_eq, lastSome_none_iff]
         intro kv hkv
-        have hm4 : members (deleteKeys [b!"outlier", b!"destinations", b!"age_ts", b!"unsigned"] kvs0) b!"event_id" = [] := by
+        have hm4 : members (deleteKeys strip4 kvs0) b!"event_id" = [] := by
           rw [members_deleteKeys _ _ _ (by decide)]; exact hnoid
         cases hke : kv.1 == b!"event_id"
         · rfl
         · exfalso
-          have hmem : kv.2 ∈ members (deleteKeys [b!"outlier", b!"destinations", b!"age_ts", b!"unsigned"] kvs0) b!"event_id" := by
+          have hmem : kv.2 ∈ members (deleteKeys strip4 kvs0) b!"event_id" := by
             unfold members
             apply List.mem_map.mpr
             refine ⟨kv, List.mem_filter.mpr ⟨hkv, ?_⟩, rfl⟩
             rw [beq_iff_eq.mp hke]; exact matchesField_self _
           rw [hm4] at hmem; cases hmem
-      rw [deleteFirst_absent _ _ hnone, h4]
+      rw [deleteFirst_absent _ _ hnone, redactJSON_strip4]
     simp only [referenceID, hred] at hidu
     simp only [referenceID] at hidt
     rw [hidt] at hidu
@@ -723,18 +741,6 @@ theorem build_row_facts {ver : Bytes} {row : VGen.VersionRow} {fmt : Fmt} (hrow 
   rcases h3 with h3 | h3
   · rw [h3] at h2; simp at h2
   · simp [h3]
-
-/-- the four keys a receiver strips are read by no keep struct: the redaction does not see them -/
-theorem redactJSON_strip4 (ver : Bytes) (kvs : EventParse.Obj) :
-    redactJSON ver (.obj (deleteKeys strip4 kvs)) = redactJSON ver (.obj kvs) := by
-  apply redactJSON_obj_eq
-  intro a ha
-  have hT := algoOf_tableOk ha
-  simp only [tableOk, Bool.and_eq_true] at hT
-  obtain ⟨⟨⟨⟨⟨hu1, hu2⟩, hu3⟩, hu4⟩, _⟩, _⟩ := hT
-  simp only [strip4, deleteKeys, List.foldl_cons, List.foldl_nil]
-  rw [redactObj_deleteFirst a _ _ hu1, redactObj_deleteFirst a _ _ hu2, redactObj_deleteFirst a _ _ hu4,
-    redactObj_deleteFirst a _ _ hu3]
 
 theorem ite_err_inv {c : Prop} [Decidable c] {x : Err} {B : Except Err Unit}
     (h : (if c then Except.error x else B) = Except.ok ()) : ¬ c ∧ B = Except.ok () := by
@@ -874,12 +880,12 @@ theorem build_roundtrip {H : Bytes → Bytes} {ver : Bytes} {pe : EventBuild.Pro
   -- the canonical value can be redacted (what `signEvent` redacted, signed and canonicalised)
   have hredS : ∃ r, redactJSON ver (.obj (canonMembers signed)) = .ok r := by
     obtain ⟨wh, ns, r, hsig, hr⟩ := SF.redactable
-    have hro : redactObj a wh = .ok r := by simpa [redactJSON, ha, redactWith] using hr
+    have hro : redactWith a (.obj wh) = .ok r := by simpa [redactJSON, ha] using hr
     obtain ⟨hT, _⟩ := C05.algoOf_ok ha
-    obtain ⟨_, r', _, hr', _⟩ := redactObj_signatures hT (algoOf_tableOk ha) ns hro
+    obtain ⟨_, r', _, hr', _⟩ := redactWith_signatures hT (algoOf_tableOk ha) ns hro
     rw [← hsig] at hr'
-    obtain ⟨v', hv'⟩ := redactObj_canon (foldNodup_of_keys hkeys (keys_nodup_of_noDup hnd)) hnd hr'
-    exact ⟨v', by simp [redactJSON, ha, redactWith, hv']⟩
+    obtain ⟨v', hv'⟩ := redactWith_canon hT hnd hr'
+    exact ⟨v', by simp [redactJSON, ha, hv']⟩
   subst hE
   have hcore : SameCore (received ver fmt (deleteKeys (stripKeys fmt) (canonMembers signed)) id).f
       ({ (decodeFields fmt (canonMembers signed)).f with eventIDRaw := id } : Fields) :=
@@ -991,6 +997,16 @@ def isOk {α : Type} (x : Except Err α) : Bool :=
 example : (match parseUntrusted C04.H0 b!"10" (C04.exText "") with
   | .ok e => isOk (setUnsigned e (.obj [(b!"age", .num b!"7")])) && isOk (signWith e b!"hs" b!"ed25519:1" b!"c2ln") &&
              isOk (redact e) && isOk (eventID C04.H0 e) && isOk (parseTrusted C04.H0 b!"10" false (C04.exText ""))
+  | _ => false) = true := by decide +kernel
+
+/-- `eventID_redact_invariant` on an event that carries a case variant `Event_id` (and no `event_id`): the
+    sender-made event of C04 — accepted, redactable, and its ID is the same after `Redact()` -/
+example : (match parseUntrusted C04.H1 b!"10" (C04.exEv true "x" "lw") with
+  | .ok e => (match redact e, eventID C04.H1 e with
+    | .ok e', .ok id => !e.redacted && e'.redacted && (match eventID C04.H1 e' with
+      | .ok id' => id' == id && !id.isEmpty
+      | _ => false) && (lookupExact e.obj b!"event_id").isNone && (lookupExact e.obj b!"Event_id").isSome
+    | _, _ => false)
   | _ => false) = true := by decide +kernel
 
 end V.C03
